@@ -32,3 +32,48 @@ pub fn unhex(s: &str) -> Vec<u8> {
     if s == "-" { return vec![]; }
     (0..s.len() / 2).map(|i| u8::from_str_radix(&s[2 * i..2 * i + 2], 16).unwrap()).collect()
 }
+
+/// Run a stateful engine: `reset` re-creates the state; each op runs under catch_unwind.
+/// After a panic the state is considered poisoned: every further op of the case prints `POISONED`.
+pub fn run_stateful<S>(init: impl Fn() -> S, step: impl Fn(&mut S, &[&str]) -> String) {
+    std::panic::set_hook(Box::new(|_| {}));
+    let stdin = std::io::stdin();
+    let stdout = std::io::stdout();
+    let mut out = std::io::BufWriter::new(stdout.lock());
+    let mut st = init();
+    let mut poisoned = false;
+    for line in stdin.lock().lines() {
+        let line = line.unwrap();
+        let toks: Vec<&str> = line.split_whitespace().collect();
+        if toks == ["reset"] {
+            st = init();
+            poisoned = false;
+            writeln!(out, "ok").unwrap();
+            continue;
+        }
+        if poisoned {
+            writeln!(out, "POISONED").unwrap();
+            continue;
+        }
+        let r = std::panic::catch_unwind(std::panic::AssertUnwindSafe(|| step(&mut st, &toks)));
+        match r {
+            Ok(s) => writeln!(out, "{}", s).unwrap(),
+            Err(_) => {
+                poisoned = true;
+                writeln!(out, "PANIC").unwrap()
+            }
+        }
+    }
+}
+
+/// 16-byte handle for a small integer id: big-endian in bytes 0..2 would make byte order = numeric
+/// order; we put the high byte first and the low byte last to exercise lexicographic comparison.
+pub fn handle16(id: u32) -> [u8; 16] {
+    let mut h = [0u8; 16];
+    h[0] = (id >> 8) as u8;
+    h[15] = (id & 0xff) as u8;
+    h
+}
+pub fn unhandle16(h: &[u8; 16]) -> u32 {
+    ((h[0] as u32) << 8) | h[15] as u32
+}
